@@ -326,12 +326,18 @@ structure GenFlags where
   externalEnums : Option (List String) := none
   deriving Repr, Inhabited
 
+def allowWord : List Char := ['a', 'l', 'l', 'o', 'w']
+def denyWord : List Char := ['d', 'e', 'n', 'y']
+def warnWord : List Char := ['w', 'a', 'r', 'n']
+def pubWord : List Char := ['p', 'u', 'b']
+def inheritedWord : List Char := ['i', 'n', 'h', 'e', 'r', 'i', 't', 'e', 'd']
+def privateWord : List Char := ['p', 'r', 'i', 'v', 'a', 't', 'e']
+
 /-- `DeprecationStrategy::from_str` (`deprecation.rs`): trims, then three exact words -/
 def parseDeprecation (s : String) : Option DepStrategy :=
-  let t := trim s.toList
-  if t = "allow".toList then some .allow
-  else if t = "deny".toList then some .deny
-  else if t = "warn".toList then some .warn
+  if trim s.toList = allowWord then some .allow
+  else if trim s.toList = denyWord then some .deny
+  else if trim s.toList = warnWord then some .warn
   else none
 
 /-- `syn::Visibility` as far as the CLI can produce it -/
@@ -354,9 +360,9 @@ none of the three words contains a `k`.  `none` = `syn::parse_str(&v).unwrap()` 
 def parseVisibility (synPathOk : String → Bool) : Option String → Option Vis
   | none => some .pub
   | some v =>
-    let l := lowerAscii v.toList
-    if l = "pub".toList then some .pub
-    else if l = "inherited".toList || l = "private".toList then some .inherited
+    if lowerAscii v.toList = pubWord then some .pub
+    else if lowerAscii v.toList = inheritedWord then some .inherited      -- `"inherited" | "private"`
+    else if lowerAscii v.toList = privateWord then some .inherited
     else if synPathOk v then some (.restricted v) else none
 
 /-- flags → `GraphQLClientCodegenOptions`, in the order of `generate_code` -/
@@ -470,17 +476,15 @@ def generateCode (env : GenEnv) (f : GenFlags) (fs : Fs) : Exit × Fs :=
     | .err m => (.failure ("Error generating module code: " ++ m), fs)
     | .panic m => (.panic m, fs)
     | .tokens t =>
-      let code := generatedCode t
-      let formatted : Option String := if f.noFormatting then some code else env.rustfmt code
-      match formatted with
+      -- `if !no_formatting { format(&generated_code)? }`
+      match (if f.noFormatting then some (generatedCode t) else env.rustfmt (generatedCode t)) with
       | none => (.panic "rustfmt error", fs)
       | some text =>
         match destPath (f.outputDirectory.map String.toList) f.queryPath.toList with
         | none => (.failure "Failed to find a file name in the provided query path.", fs)
         | some dest =>
-          let dest := String.ofList dest
-          if env.creatable dest then (.success, fs.write dest text)
-          else (.failure ("Creating file at " ++ dest), fs)
+          if env.creatable (String.ofList dest) then (.success, fs.write (String.ofList dest) text)
+          else (.failure ("Creating file at " ++ String.ofList dest), fs)
 
 end Cli
 end GqlVerif
